@@ -995,6 +995,14 @@ func c12P(h string, tags ...string) *c12Info {
 	return &p
 }
 
+// c12PM: a pool certificate added with a chosen managed flag / issuer key (the same hash can reach
+// the cache both ways: CacheUnmanaged* and CacheManagedCertificate / an on-demand load).
+func c12PM(h string, managed bool, issuer string, tags ...string) *c12Info {
+	p := *c12PoolByHash(h)
+	p.Managed, p.IssuerKey, p.Tags = managed, issuer, tags
+	return &p
+}
+
 // the small alphabet for the exhaustive part
 func c12Alphabet() []c12Op {
 	rm := func(h string) *c12Op { return &c12Op{Kind: "remove", Hashes: []string{h}} }
@@ -1007,6 +1015,10 @@ func c12Alphabet() []c12Op {
 		{Kind: "add", Cert: c12P("h2")},
 		{Kind: "add", Cert: c12P("h3")},
 		{Kind: "add", Cert: c12P("h4", "t1")},
+		// the same hash re-added with the other managed flag (pool: h1 unmanaged, h2 managed by i1)
+		{Kind: "add", Cert: c12PM("h1", true, "i1", "t4")},
+		{Kind: "add", Cert: c12PM("h1", true, "i2")},
+		{Kind: "add", Cert: c12PM("h2", false, "", "t6")},
 		{Kind: "rmcert", Cert: c12P("h1")},
 		{Kind: "rmcert", Cert: c12P("h2")},
 		{Kind: "rmcert", Cert: c12P("h4")},
@@ -1060,6 +1072,10 @@ func c12RandHist(r *rand.Rand, env *c12Env) c12Hist {
 		p := c12PoolDef[r.Intn(len(c12PoolDef))]
 		p.Tags = tagsets[r.Intn(len(tagsets))]
 		p.OCSPSerial = int64(r.Intn(4))
+		if r.Intn(5) == 0 { // the same hash with the other managed flag
+			p.Managed = !p.Managed
+			p.IssuerKey = map[bool]string{true: []string{"i1", "i2"}[r.Intn(2)], false: ""}[p.Managed]
+		}
 		return &p
 	}
 	copyOf := func(sim *c12Snap) *c12Info {
@@ -1318,6 +1334,10 @@ func runC12(tier string, seed int64, outdir string, replay string) error {
 		{"stale-writeback-after-remove", c12Hist{Cap: 1, Ops: []c12Op{{Kind: "add", Cert: h2}, {Kind: "hsmaint", Cert: stale, Inner: &c12Op{Kind: "replace", Cert: h2, New: c12P("h3")}}}}},
 		{"stale-writeback-after-remove", c12Hist{Cap: 1, Ops: []c12Op{{Kind: "add", Cert: h2}, {Kind: "hsmaint", Cert: stale, Inner: &c12Op{Kind: "add", Cert: c12P("h1")}}}}},
 		{"stale-writeback-after-remove", c12Hist{Cap: 0, Ops: []c12Op{{Kind: "add", Cert: h2}, {Kind: "remove", Hashes: []string{"h2"}}, {Kind: "hsmaint", Cert: stale}}}},
+		// cached unmanaged with tags, re-added managed, re-added unmanaged with another tag: tags = union, entry stays as first cached
+		{"readd-managed-flip", c12Hist{Cap: 0, Ops: []c12Op{{Kind: "add", Cert: c12P("h1", "t1")}, {Kind: "add", Cert: c12PM("h1", true, "i1", "t4")}, {Kind: "add", Cert: c12P("h1", "t2")}}}},
+		{"readd-managed-flip", c12Hist{Cap: 0, Ops: []c12Op{{Kind: "add", Cert: c12P("h1", "t1", "t3")}, {Kind: "add", Cert: c12PM("h1", true, "i1")}, {Kind: "add", Cert: c12P("h1", "t2")}}}},
+		{"readd-managed-flip", c12Hist{Cap: 2, Ops: []c12Op{{Kind: "add", Cert: c12P("h2", "t1")}, {Kind: "add", Cert: c12PM("h2", false, "", "t6")}, {Kind: "add", Cert: c12P("h2")}, {Kind: "renewmaint"}}}},
 		{"corpus", c12Hist{Cap: 0, Ops: []c12Op{{Kind: "add", Cert: c12P("h3")}, {Kind: "ari", Cert: c12P("h3"), Inner: &c12Op{Kind: "rmcert", Cert: c12P("h3")}}}}},
 		{"corpus", c12Hist{Cap: 0, Ops: []c12Op{{Kind: "add", Cert: h2}, {Kind: "ocspmaint", Inner: &c12Op{Kind: "rmmanaged", Subjects: [][2]string{{"b.x", ""}}}}}}},
 		{"corpus", c12Hist{Cap: 2, Ops: []c12Op{{Kind: "add", Cert: c12P("h4", "t1")}, {Kind: "add", Cert: c12P("h8")}, {Kind: "add", Cert: c12P("h4", "t2")}, {Kind: "add", Cert: c12P("h1")}, {Kind: "remove", Hashes: []string{"h4", "h8", "h1"}}}}},
